@@ -81,7 +81,8 @@ def gen(rng: Rng, tier: str, index: int) -> dict:
     delivery = d.pick([{'mode': 'str'}, {'mode': 'lines'}, {'mode': 'chunks', 'size': d.pick([1, 2, 3, 7, 64, 1000])},
                        {'mode': 'chunks', 'ncuts': d.randrange(1, 20), 'cut_seed': d.randrange(1 << 30)},
                        {'mode': 'file', 'newline': d.pick([None, '']), 'read_sizes': [d.randrange(1, 200) for _ in range(d.randrange(1, 4))]}])
-    return {'map': m, 'opts': opts, 'steps': steps, 'sink': sink, 'delivery': delivery, 'sample': None}
+    return {'map': m, 'opts': opts, 'steps': steps, 'sink': sink, 'delivery': delivery, 'sample': None,
+            'reparse': rng.child('reparse').chance(0.4)}
 
 
 _SAMPLES = None
@@ -307,6 +308,8 @@ def run(case: dict) -> Outcome:
         except Exception as e:
             out.violate('export-raised', 'second|' + type(e).__name__, f'second export raised {e!r}')
             return out
+        if case.get('reparse'):
+            _reparse_phase(out, m2, o2, t1, opts)
     t1n = t1.replace('\r\n', '\n')
     o1m, idm, iderr = _strip_ids(o1, o2)
     if iderr is not None:
@@ -342,6 +345,82 @@ def run(case: dict) -> Outcome:
     out.sample = {'opts': opts, 'sink': case['sink'], 'delivery': case['delivery'], 'steps': case['steps'],
                   'features': sorted(feats), 'text_head': t1[:400], 'sample_file': case.get('sample')}
     return out
+
+
+def _scribble(m: VMF):
+    """In-place edits all over a parsed map (the caller owns it and may do what it likes with it)."""
+    for solid in list(m.brushes) + [s for e in m.entities for s in e.solids]:
+        solid.translate(Vec(16, -32, 48))
+        for side in solid.sides:
+            side.uaxis.offset += 7.0
+            side.vaxis.scale *= 2.0
+            side.uaxis.x += 0.5
+            side.mat = side.mat + '_edited'
+            side.lightmap += 1
+            if side.is_disp:
+                side.disp_pos.x += 9.0
+                for v in side._disp_verts[:3]:
+                    v.normal.z += 1.0
+                    v.offset.x += 1.0
+                    v.offset_norm.y += 1.0
+                    v.alpha += 1.0
+        solid.editor_color.x = (solid.editor_color.x + 1) % 255
+        solid.visgroup_ids.add(77)
+    for e in [m.spawn] + list(m.entities):
+        for k in list(e.keys()):
+            if k.casefold() not in ('classname', 'nodeid'):
+                e[k] = e[k] + 'X'
+        for o in e.outputs:
+            o.target += '_x'
+            o.delay += 1.0
+        if e is not m.spawn:
+            e.fixup['scribble'] = 'y'
+            e.editor_color.y = (e.editor_color.y + 1) % 255
+            e.visgroup_ids.add(78)
+            e.groups.add(79)
+    for cam in m.cameras:
+        cam.pos.x += 5.0
+        cam.target.z -= 5.0
+    for c in m.cordons:
+        c.bbox_min.x -= 1.0
+        c.bbox_max.y += 1.0
+    for vg in m.vis_tree:
+        vg.name += '_x'
+        vg.color.x = (vg.color.x + 1) % 255
+
+
+def _reparse_phase(out: Outcome, m2: VMF, o2, t1: str, opts):
+    """What a parse returns must not depend on earlier parses of the same text or on what their owner did with the
+    result: scribble over the first result, parse the same text again, compare with the first observation, and look for
+    mutable objects reachable from both results."""
+    from machines.vmf_copy import walk_mutables
+    try:
+        _scribble(m2)
+    except Exception as exc:
+        out.event('scribble-raised', type(exc).__name__)
+    try:
+        m3 = VMF.parse(Keyvalues.parse(t1.replace('\r\n', '\n'), 'again.vmf'), preserve_ids=opts['preserve_ids'])
+        o3 = G.obs_map(m3, minimal=opts['minimal'])
+    except Exception as exc:
+        out.violate('parse-history-dependent', f'raised|{type(exc).__name__}', f'second parse of the same text raised {exc!r}')
+        return
+    out.stats['reparse_phases'] += 1
+    df = G.diff(o2, o3, tol_default=0.0)
+    if df is not None:
+        out.violate('parse-history-dependent:' + G.generic_path(df[0]), 'after-edit-of-first-result',
+                    f'{df[0]}: first parse gave {str(df[1])[:120]!r}, a second parse of the same text (after the first result was edited in place) gives {str(df[2])[:120]!r}')
+        return
+    roots2 = [m2.spawn] + list(m2.entities) + list(m2.brushes) + list(m2.cameras) + list(m2.cordons) + list(m2.vis_tree) + list(m2.groups.values())
+    roots3 = [m3.spawn] + list(m3.entities) + list(m3.brushes) + list(m3.cameras) + list(m3.cordons) + list(m3.vis_tree) + list(m3.groups.values())
+    w2 = walk_mutables(roots2)
+    w3 = walk_mutables(roots3)
+    for key in w2:
+        if key in w3:
+            pa, _o = w2[key]
+            pb, ob = w3[key]
+            out.violate('parse-shares-state:' + G.generic_path(pb or pa), type(ob).__name__,
+                        f'{type(ob).__name__} object reachable from two separate parses of the same text (first{pa}, second{pb})')
+            break
 
 
 def _drop_multiblend(o):
